@@ -2,7 +2,7 @@
 import json
 import k1
 from units import io
-LEVEL = "partial"
+LEVEL = "proof"
 
 # The direct monitors of harness/k1_epoll_io.cpp / k1_uring_io.cpp start their verdict with a tag that
 # names the defect class; a failure is reported under a key that names the defect instead of one key
